@@ -11,8 +11,8 @@ INJ = "//go:build wireinject\n// +build wireinject\n\n"
 def scenarios():
     S = []
 
-    def add(name, graph, files, main, want, pids):
-        S.append({"name": name, "graph": graph, "files": files, "main": main, "want": want, "pids": pids})
+    def add(name, graph, files, main, want, pids, reject=None):
+        S.append({"name": name, "graph": graph, "files": files, "main": main, "want": want, "pids": pids, "reject": reject})
     # ---------------- graph A: NewDB -> NewService, in four layouts
     types_a = "type DB struct{ DSN string }\ntype Service struct{ DB *DB }\n\nfunc NewDB() *DB { return &DB{DSN: \"dsn\"} }\nfunc NewService(db *DB) *Service { return &Service{DB: db} }\n"
     add("A-flat", "A", {
@@ -94,6 +94,20 @@ def scenarios():
                        "func newApp(c Cfg, b int64) App { return App{Level: int64(c) + b} }\n\nfunc main() { fmt.Println(\"level\", initApp().Level) }\n"),
         "d3/wire.go": INJ + "package main\n\nimport (\n\t\"example.com/l/d3/cfg\"\n\t\"%s\"\n)\n\nfunc initApp() App {\n\tpanic(wire.Build(provideCfg, newApp, wire.Value(cfg.Bonus)))\n}\n" % W,
     }, "./d3", "level 42", ["C14", "C01", "C13"])
+    # ---------------- graph E: providers the injector's package cannot name (must be refused, with a position)
+    libe = ("package lib\n\nimport \"%s\"\n\ntype T struct{ N int }\ntype U struct{ t T }\ntype hidden struct{ N int }\ntype W struct{ H int }\n\n"
+            "func newT() T { return T{N: 1} }\nfunc NewU(t T) U { return U{t: t} }\nfunc GetT(u U) int { return u.t.N }\nfunc NewW(h *hidden) W { return W{H: h.N} }\n\n"
+            "var SetFunc = wire.NewSet(newT, NewU)\nvar SetStructField = wire.NewSet(wire.Value(T{N: 2}), wire.Struct(new(U), \"t\"))\n"
+            "var SetStructType = wire.NewSet(wire.Struct(new(hidden)), wire.Value(3), NewW)\n") % W
+    def inje(e, expr, res, params=""):
+        return {"%s/lib/lib.go" % e: libe,
+                "%s/app/app.go" % e: "package main\n\nfunc main() {}\n",
+                "%s/app/wire.go" % e: INJ + "package main\n\nimport (\n\t\"example.com/l/%s/lib\"\n\t\"%s\"\n)\n\nfunc initX(%s) %s {\n\tpanic(wire.Build(%s))\n}\n" % (e, W, params, res, expr)}
+    rx = r"wire\.go:\d+:\d+: inject initX: provider for \S+ can't be used: uses unexported identifier"
+    add("E-unexported-function-in-library-set", "E", inje("e1", "lib.SetFunc", "lib.U"), "./e1/app", None, ["C01", "C19"], reject=rx)
+    add("E-unexported-field-in-library-struct-provider", "E", inje("e2", "lib.SetStructField", "lib.U"), "./e2/app", None, ["C01", "C19", "C12"], reject=rx)
+    add("E-unexported-struct-type-in-library-set", "E", inje("e3", "lib.SetStructType", "lib.W"), "./e3/app", None, ["C01", "C19", "C12"], reject=rx)
+    add("E-unexported-field-selected-from-the-injector-package", "E", inje("e4", 'wire.FieldsOf(new(lib.U), "t")', "lib.T", "u lib.U"), "./e4/app", None, ["C01", "C19", "C12"], reject=rx)
     return S
 
 
@@ -123,6 +137,16 @@ def eng_layouts(pid, tier, wd, known, replay=None):
             rc, err = 124, "timeout"
         if "goroutine " in err or rc in (2, 124):
             why.append("wire crashed on a well-formed program (exit %d): %s" % (rc, err[:400]))
+        elif s.get("reject"):
+            if rc == 0:
+                b = sh(["go", "build", s["main"]], cwd=root, env=GOENV, timeout=300)
+                why.append("the injector's package cannot name this provider, yet wire generated code" + ("; it does not compile: " + b.stderr[-300:] if b.returncode != 0 else ""))
+            elif not re.search(s["reject"], err):
+                why.append("refused, but without the positioned diagnostic about the unexported identifier: " + err[:400])
+            if pid == "C19":
+                c = sh([tools["wire"], "check", "./%s/..." % top], cwd=root, env=GOENV, timeout=120)
+                if (c.returncode == 0) != (rc == 0):
+                    why.append("wire check exits %d where wire gen exits %d" % (c.returncode, rc))
         elif rc != 0:
             why.append("a well-formed program is rejected in this layout: " + err[:400])
         else:
